@@ -288,13 +288,16 @@ def _decls(f):
 
 
 def orientation_fns(F):
-    """functions computing a ring's orientation: a local, non-closure fn whose body sums over `windows(..)` of a slice"""
+    """functions computing a ring's orientation: a local, non-closure fn whose body sums over the consecutive pairs of a slice
+    (`windows(2)`, or the slice zipped with itself one further)"""
     out = []
     for f in F.identity_fns():
         if f.get("kind") == "Closure":
             continue
         d = _decls(f)
-        if any(x.endswith("::windows") for x in d) and any(x.endswith("Iterator::sum") for x in d):
+        pairs = any(x.endswith("::windows") for x in d) or (any(x.endswith("Iterator::zip") for x in d) and
+                                                            any(x.endswith("Iterator::skip") for x in d))
+        if pairs and any(x.endswith("Iterator::sum") or x.endswith("Iterator::fold") for x in d):
             out.append(f)
     return out
 
